@@ -139,6 +139,16 @@ def same_path(ctx, where, orig, got, M=None):
                           '%s: point at t=%r is %r, expected %r' % (where, t, have, want))
 
 
+def _mid_tol(seg):
+    """tolerance of the geometric pre-match: arcs whose radii were auto-enlarged are re-enlarged on reading (C01: radii may
+    differ by 1e-12 relative) and then only accurate to ~2e-4 of their size (C04)"""
+    from svgpathtools import Arc
+    z = complex(seg.point(0.5))
+    if isinstance(seg, Arc):
+        return 1e-3 * max(abs(seg.radius), abs(seg.end - seg.start))
+    return 1e-9 * (1 + abs(z))
+
+
 def attr_equal(v, r):
     if r is None:
         return False
@@ -331,7 +341,7 @@ def check_history(case, ctx, tmp):
                 for i, g in enumerate(ps):
                     if i in used or len(g) != len(m['path']):
                         continue
-                    if all(type(a) is type(b) and a.start == b.start and a.end == b.end and abs(complex(a.point(0.5)) - complex(b.point(0.5))) <= 1e-9 * (1 + abs(complex(a.point(0.5))))
+                    if all(type(a) is type(b) and a.start == b.start and a.end == b.end and abs(complex(a.point(0.5)) - complex(b.point(0.5))) <= _mid_tol(a)
                            for a, b in zip(m['path'], g)):
                         if all(attr_equal(vv, ats[i].get(kk)) for kk, vv in m['attrs'].items()):
                             hit = i
